@@ -1753,6 +1753,54 @@ package graphql
 //@   at return: assert calls("GetKind") == 1 && lastresult("GetKind") == kinds.Directive && directive != nil && calls("reportError") == 0 ==> fieldArgDef != nil && fieldArgDef.PrivateName == node.Name.Value
 //@   ensures calls("reportError") <= 1 && result0 == visitor.ActionNoChange
 
+// UniqueInputFieldNames: within one object literal a field name met before is reported (located at the earlier
+// and at the current name) and a new one is recorded; entering a nested object literal starts an empty record
+// and leaving it restores the enclosing one.
+//@ func UniqueInputFieldNamesRule$1
+//@   props C02
+//@   nosafety
+//@   ensures len(knownNameStack) == old(len(knownNameStack)) + 1 && knownNameStack[len(knownNameStack)-1] == old(knownNames)
+//@   ensures fresh(knownNames) && len(knownNames) == 0 && result0 == visitor.ActionNoChange
+//@ func UniqueInputFieldNamesRule$2
+//@   props C02
+//@   nosafety
+//@   requires len(knownNameStack) >= 1
+//@   ensures knownNames == old(knownNameStack[len(knownNameStack)-1]) && len(knownNameStack) == old(len(knownNameStack)) - 1 && result0 == visitor.ActionNoChange
+//@ func UniqueInputFieldNamesRule$3
+//@   props C02 C18
+//@   nosafety
+//@   ensures !typeis(p.Node, "*ast.ObjectField") ==> calls("reportError") == 0
+//@   ensures typeis(p.Node, "*ast.ObjectField") && as(p.Node, "*ast.ObjectField").Name != nil && old(has(knownNames, as(p.Node, "*ast.ObjectField").Name.Value)) ==> calls("reportError") == 1
+//@   ensures typeis(p.Node, "*ast.ObjectField") && as(p.Node, "*ast.ObjectField").Name != nil && !old(has(knownNames, as(p.Node, "*ast.ObjectField").Name.Value)) ==> calls("reportError") == 0 && has(knownNames, as(p.Node, "*ast.ObjectField").Name.Value) && knownNames[as(p.Node, "*ast.ObjectField").Name.Value] == as(p.Node, "*ast.ObjectField").Name
+//@   at call reportError: assert arg0 == context && len(arg2) == 2 && typeis(arg2[0], "*ast.Name") && as(arg2[0], "*ast.Name") == knownNames[fieldName] && typeis(arg2[1], "*ast.Name") && as(arg2[1], "*ast.Name") == node.Name
+//@   ensures knownNames == old(knownNames) && result0 == visitor.ActionSkip
+
+// NoUndefinedVariables: the names defined by the operation being visited are recorded (reset at every
+// operation); on leaving it every usage (also inside spread fragments) of a name that is not recorded is
+// reported, located at the usage and at the operation.
+//@ func UndefinedVarMessage
+//@   trusted
+//@   assigns nothing
+//@ func NoUndefinedVariablesRule$1
+//@   props C02
+//@   nosafety
+//@   ensures len(variableNameDefined) == 0 && fresh(variableNameDefined) && result0 == visitor.ActionNoChange
+//@ func NoUndefinedVariablesRule$3
+//@   props C02
+//@   nosafety
+//@   ensures typeis(p.Node, "*ast.VariableDefinition") && as(p.Node, "*ast.VariableDefinition") != nil && as(p.Node, "*ast.VariableDefinition").Variable != nil && as(p.Node, "*ast.VariableDefinition").Variable.Name != nil ==> has(variableNameDefined, as(p.Node, "*ast.VariableDefinition").Variable.Name.Value) && variableNameDefined[as(p.Node, "*ast.VariableDefinition").Variable.Name.Value]
+//@   ensures variableNameDefined == old(variableNameDefined) && mapkept(variableNameDefined) && result0 == visitor.ActionNoChange
+//@ func NoUndefinedVariablesRule$2
+//@   props C02 C18
+//@   nosafety
+//@   ensures !typeis(p.Node, "*ast.OperationDefinition") ==> calls("reportError") == 0 && calls("RecursiveVariableUsages") == 0
+//@   at call RecursiveVariableUsages: assert arg1 == operation
+//@   loop 1 over lastresult("RecursiveVariableUsages")
+//@   loop 1 ensures usage != nil && usage.Node != nil && usage.Node.Name != nil && !(has(variableNameDefined, usage.Node.Name.Value) && variableNameDefined[usage.Node.Name.Value]) ==> calls("reportError") == atloop(1, calls("reportError")) + 1
+//@   loop 1 ensures usage != nil && usage.Node != nil && usage.Node.Name != nil && has(variableNameDefined, usage.Node.Name.Value) && variableNameDefined[usage.Node.Name.Value] ==> calls("reportError") == atloop(1, calls("reportError"))
+//@   loop 1 ensures usage == nil || usage.Node == nil ==> calls("reportError") == atloop(1, calls("reportError"))
+//@   at call reportError: assert arg0 == context && len(arg2) == 2 && typeis(arg2[0], "*ast.Variable") && as(arg2[0], "*ast.Variable") == usage.Node && typeis(arg2[1], "*ast.OperationDefinition") && as(arg2[1], "*ast.OperationDefinition") == operation
+
 // VariablesAreInputTypes: a variable definition is reported exactly when its type is known and not an input
 // type; the error is located at the type reference.
 //@ func VariablesAreInputTypesRule$1
